@@ -28,6 +28,7 @@ for chk in "${checks[@]}"; do
   s=$(date +%s)
   out=$(VMC_NO_CONFIRM=1 ./check "$chk" "$tier" 2>&1)
   rc=$?
+  [ -n "$SEED_LOG" ] && echo "$out" > "$SEED_LOG.$id.$chk.log"
   n=$(echo "$out" | grep -c '^VIOLATION')
   first=$(echo "$out" | grep -A1 '^VIOLATION' | grep oracle | head -1 | cut -c1-260)
   echo "$id: $chk $tier exit=$rc violations=$n $(( $(date +%s) - s ))s $first"
